@@ -443,7 +443,13 @@ Pack(sec, g) ==
      IN /\ layers' = [layers EXCEPT ![Top] = r.h]
         /\ inst' = IF (mark \/ r.out \in {"ok", "nothing-freed", "redundant"}) /\ T > inst[Top].lastPack
                    THEN [inst EXCEPT ![Top].lastPack = T] ELSE inst
-        /\ res' = [call |-> "pack", out |-> r.out, T |-> T, gc |-> g]
+        \* the code as it is: a garbage collection over the changes alone that fails on a reference into the base
+        \* (or on the root living there) has already moved the objects it visited out of the changes
+        \* (MappingStorage.pack is not exception safe; the visiting order is Python's set order).  The meaning
+        \* of a pack that fails is "nothing changed": that is what the history keeps here; `cause` tells the
+        \* replay that the real changes storage may have lost revisions at this point.
+        /\ res' = [call |-> "pack", out |-> r.out, T |-> T, gc |-> g,
+                    cause |-> IF ownGc /\ g # "false" /\ r.out = "KeyError" THEN "pack-gc-ignores-base" ELSE "none"]
   /\ obs' = ObsOf(layers', inst') /\ dev' = DevOf(layers', inst', obs')
   /\ UNCHANGED <<txn, clock, begun, noids>>
 
